@@ -160,4 +160,91 @@ lemma codeKs3 (μ : F) : (4 : F) / 3 * μ = Ks3 μ := rfl
 lemma codeKs2 (μ : F) : (1 : F) * μ = Ks2 μ := by unfold Ks2; ring
 end code
 
+
+/-! ### two-phase sphere schemes: the expressions as the code writes them -/
+section schemes
+variable {F : Type} [Field F] [LinearOrder F] [IsStrictOrderedRing F]
+
+/-- KGModuli::ToYoungNu followed by the `young/3/(1-2ν)`, `young/2/(1+ν)` of the schemes -/
+lemma rtK1 {K G : F} (hK : 0 < K) (hG : 0 < G) :
+    (2 : F) * G * ((1 : F) + ((3 : F) * K - (2 : F) * G) / ((2 : F) * G + (6 : F) * K)) / (3 : F)
+      / ((1 : F) - (2 : F) * (((3 : F) * K - (2 : F) * G) / ((2 : F) * G + (6 : F) * K))) = K := by
+  have h : (2 : F) * G + 6 * K ≠ 0 := by positivity
+  have hK' := hK.ne'; have hG' := hG.ne'
+  have h9 : (2 : F) * G + 6 * K - 2 * (3 * K - 2 * G) ≠ 0 := by ring_nf; positivity
+  have h8 : (2 : F) * G + 6 * K + (3 * K - 2 * G) ≠ 0 := by ring_nf; positivity
+  rw [show (1 : F) - 2 * ((3 * K - 2 * G) / (2 * G + 6 * K)) = (2 * G + 6 * K - 2 * (3 * K - 2 * G)) / (2 * G + 6 * K) by field_simp] <;>
+  field_simp <;> ring
+lemma rtG1 {K G : F} (hK : 0 < K) (hG : 0 < G) :
+    (2 : F) * G * ((1 : F) + ((3 : F) * K - (2 : F) * G) / ((2 : F) * G + (6 : F) * K)) / (2 : F)
+      / ((1 : F) + ((3 : F) * K - (2 : F) * G) / ((2 : F) * G + (6 : F) * K)) = G := by
+  have h : (2 : F) * G + 6 * K ≠ 0 := by positivity
+  have hK' := hK.ne'; have hG' := hG.ne'
+  have h9 : (2 : F) * G + 6 * K - 2 * (3 * K - 2 * G) ≠ 0 := by ring_nf; positivity
+  have h8 : (2 : F) * G + 6 * K + (3 * K - 2 * G) ≠ 0 := by ring_nf; positivity
+  rw [show (1 : F) - 2 * ((3 * K - 2 * G) / (2 * G + 6 * K)) = (2 * G + 6 * K - 2 * (3 * K - 2 * G)) / (2 * G + 6 * K) by field_simp] <;>
+  field_simp <;> ring
+/-- KGModuli::ToYoungNu followed by YoungNuModuli::ToKG -/
+lemma rtK2 {K G : F} (hK : 0 < K) (hG : 0 < G) :
+    (2 : F) * G * ((1 : F) + ((3 : F) * K - (2 : F) * G) / ((2 : F) * G + (6 : F) * K))
+      / ((3 : F) * ((1 : F) - (2 : F) * (((3 : F) * K - (2 : F) * G) / ((2 : F) * G + (6 : F) * K)))) = K := by
+  have h : (2 : F) * G + 6 * K ≠ 0 := by positivity
+  have hK' := hK.ne'; have hG' := hG.ne'
+  have h9 : (2 : F) * G + 6 * K - 2 * (3 * K - 2 * G) ≠ 0 := by ring_nf; positivity
+  have h8 : (2 : F) * G + 6 * K + (3 * K - 2 * G) ≠ 0 := by ring_nf; positivity
+  rw [show (1 : F) - 2 * ((3 * K - 2 * G) / (2 * G + 6 * K)) = (2 * G + 6 * K - 2 * (3 * K - 2 * G)) / (2 * G + 6 * K) by field_simp] <;>
+  field_simp <;> ring
+lemma rtG2 {K G : F} (hK : 0 < K) (hG : 0 < G) :
+    (2 : F) * G * ((1 : F) + ((3 : F) * K - (2 : F) * G) / ((2 : F) * G + (6 : F) * K))
+      / ((2 : F) * ((1 : F) + ((3 : F) * K - (2 : F) * G) / ((2 : F) * G + (6 : F) * K))) = G := by
+  have h : (2 : F) * G + 6 * K ≠ 0 := by positivity
+  have hK' := hK.ne'; have hG' := hG.ne'
+  have h9 : (2 : F) * G + 6 * K - 2 * (3 * K - 2 * G) ≠ 0 := by ring_nf; positivity
+  have h8 : (2 : F) * G + 6 * K + (3 * K - 2 * G) ≠ 0 := by ring_nf; positivity
+  rw [show (1 : F) - 2 * ((3 * K - 2 * G) / (2 * G + 6 * K)) = (2 * G + 6 * K - 2 * (3 * K - 2 * G)) / (2 * G + 6 * K) by field_simp] <;>
+  field_simp <;> ring
+lemma rtE {K G : F} (hK : 0 < K) (hG : 0 < G) :
+    (2 : F) * G * ((1 : F) + ((3 : F) * K - (2 : F) * G) / ((2 : F) * G + (6 : F) * K)) = youngOf K G := by
+  have h : (2 : F) * G + 6 * K ≠ 0 := by positivity
+  have hK' := hK.ne'; have hG' := hG.ne'
+  have h' : (3 : F) * K + G ≠ 0 := by positivity
+  unfold youngOf; field_simp; ring
+lemma rtNu {K G : F} (hK : 0 < K) (hG : 0 < G) :
+    ((3 : F) * K - (2 : F) * G) / ((2 : F) * G + (6 : F) * K) = nuOf K G := by
+  have h : (2 : F) * G + 6 * K ≠ 0 := by positivity
+  have hK' := hK.ne'; have hG' := hG.ne'
+  have h' : (3 : F) * K + G ≠ 0 := by positivity
+  unfold nuOf; field_simp; ring
+lemma codeKof (E ν : F) : E / (3 : F) / ((1 : F) - (2 : F) * ν) = kOf E ν := by
+  unfold kOf; rw [div_div]
+lemma codeGof (E ν : F) : E / (2 : F) / ((1 : F) + ν) = gOf E ν := by
+  unfold gOf; rw [div_div]
+
+/-- Mori–Tanaka, spheres, as written in computeSphereMoriTanakaScheme -/
+lemma mtK {K0 G0 K1 f : F} (hK0 : 0 < K0) (hG0 : 0 < G0) (hK1 : 0 < K1) (hf0 : 0 ≤ f) (hf1 : f ≤ 1) :
+    K0 + f * (K1 - K0) / ((1 : F) + ((1 : F) - f) * (K1 - K0) / (K0 + (4 : F) * G0 / (3 : F)))
+      = hs ![1 - f, f] ![K0, K1] (Ks3 G0) := by
+  rw [hs_fin2]; unfold Ks3
+  have h1 : 0 ≤ 1 - f := by linarith
+  have a : K0 + 4 * G0 / 3 ≠ 0 := by positivity
+  have a' : K0 + 4 / 3 * G0 ≠ 0 := by positivity
+  have b : K1 + 4 / 3 * G0 ≠ 0 := by positivity
+  have d : (K0 + 4 * G0 / 3) + (1 - f) * (K1 - K0) ≠ 0 := by
+    have : 0 < f * K0 + (1 - f) * K1 + 4 * G0 / 3 := by positivity
+    intro h; nlinarith
+  have e : (1 - f) / (K0 + 4 / 3 * G0) + f / (K1 + 4 / 3 * G0) ≠ 0 := by
+    rcases h1.lt_or_eq with h | h
+    · have : 0 < (1 - f) / (K0 + 4 / 3 * G0) + f / (K1 + 4 / 3 * G0) := by positivity
+      exact this.ne'
+    · have hf : f = 1 := by linarith
+      rw [hf]; norm_num; positivity
+  have d' : (1 : F) + (1 - f) * (K1 - K0) / (K0 + 4 * G0 / 3) ≠ 0 := by
+    rw [show (1 : F) + (1 - f) * (K1 - K0) / (K0 + 4 * G0 / 3)
+        = ((K0 + 4 * G0 / 3) + (1 - f) * (K1 - K0)) / (K0 + 4 * G0 / 3) by field_simp]
+    exact div_ne_zero d a
+  rw [eq_sub_iff_add_eq, eq_inv_iff_mul_eq_one₀ e]
+  field_simp
+  ring
+end schemes
+
 end TfelVerif.C25.Lemmas
